@@ -230,6 +230,16 @@ class Builder(object):
             if ok:
                 model["entries"].append({"notes": held, "spec": spec, "value": number})
         assert len(b.bar) == len(model["entries"])
+        # what was REFUSED leaves no trace in an export: a meter that is none, and an item that does not fit any more
+        try:
+            b.set_meter((meter[0] if meter[0] else 3, 5))
+        except Exception:  # noqa
+            pass
+        try:
+            if tuple(meter) != (0, 0) and b.space_left() < 1.0:
+                b.place_notes(self.NoteContainer([self.Note("C", 4)]), 1.0 / (b.space_left() + 1.0))
+        except Exception:  # noqa
+            pass
         return b, model
 
     def composition(self, desc):
@@ -241,6 +251,16 @@ class Builder(object):
         cm = {"title": desc["title"], "subtitle": desc["subtitle"], "author": desc["author"], "tracks": []}
         objs = []
         for td in desc["tracks"]:
+            if td.get("copy_of") is not None:
+                # a COPY of an earlier track (a doubled voice): another object with the same content
+                import copy as _copy
+                t = (_copy.deepcopy if td.get("deep", True) else _copy.copy)(objs[td["copy_of"]])
+                tm = dict(cm["tracks"][td["copy_of"]])
+                tm["same_as"] = None
+                objs.append(t)
+                c.add_track(t)
+                cm["tracks"].append(tm)
+                continue
             if td.get("same_as") is not None:
                 t = objs[td["same_as"]]
                 tm = dict(cm["tracks"][td["same_as"]])
@@ -776,6 +796,30 @@ def run(tier, seed):
             return
         LY.bar_items(g, sc.blocks[0].items, bm, inputs, "required" if showkey else "free",
                      "required" if showtime else "free")
+        # the bar is edited in a way that leaves its beat count alone (every chord replaced by the same names an octave
+        # away) and rendered again: the second text is the text of the bar as it is NOW
+        if not any(e["notes"] for e in bm["entries"]):
+            return
+        bm2 = dict(bm, entries=[dict(e) for e in bm["entries"]])
+        for i, e in enumerate(bm2["entries"]):
+            if e["notes"]:
+                moved = [(n, o + 1 if o < 8 else o - 1) for (n, o) in e["notes"]]
+                nc, held = B.container(moved)
+                b[i] = nc
+                e["notes"] = held
+        inputs2 = dict(inputs, then="every chord replaced by its names an octave away, rendered again")
+        ok, text2 = R.guard(g, "ly-decodes-under-subset-reader", inputs2,
+                            (lambda: L.from_Bar(b)) if default_args else (lambda: L.from_Bar(b, showkey, showtime)))
+        if not ok:
+            return
+        sc2 = LY.parse(g, text2, inputs2)
+        if sc2 is None:
+            return
+        if sc2.header is not None or len(sc2.blocks) != 1:
+            R.fail(g, "ly-chords-and-rests-in-order", "one bar decoded as %d blocks" % len(sc2.blocks), inputs2)
+            return
+        LY.bar_items(g, sc2.blocks[0].items, bm2, inputs2, "required" if showkey else "free",
+                     "required" if showtime else "free")
 
     one = [([("C", 4)], (Fraction(4), 0, (1, 1)), 4)]
     for key in KEYS:                          # all 30 keys x meters x show flags (one note, and empty bars)
@@ -913,6 +957,11 @@ def run(tier, seed):
             comp_case(cdesc([tdesc([(KEYS[(3 * t + b) % 30], (3 + b, 4), one) for b in range(nb)], name="T%d" % t)
                              for t in range(nt)], title="S", author="me"))
     comp_case(cdesc([tdesc([simple_bar]), tdesc(None, same_as=0)]), ly=True)
+    # a track and a copy of it (deep, shallow) are two tracks: two parts, each with its own id
+    for deep in (True, False):
+        comp_case(cdesc([tdesc([simple_bar], name="voice"), dict(tdesc(None), copy_of=0, deep=deep)]))
+        comp_case(cdesc([tdesc([simple_bar], name="a"), tdesc([("G", (3, 4), one)], name="b"), dict(tdesc(None), copy_of=1, deep=deep),
+                         dict(tdesc(None), copy_of=0, deep=deep)]))
     comp_case(cdesc([tdesc([simple_bar], name="a"), tdesc([("G", (3, 4), one)], name="b"), tdesc(None, same_as=0),
                      tdesc(None, same_as=1)]))
     # empty bars (alone, between full bars)
